@@ -11,4 +11,5 @@ CONSTANTS
   MaxCalls = 3
   Execs = {"e1", "e2"}
   Stateless = FALSE
+  FreshArrays = TRUE
 INVARIANTS TypeOK LeaderIsOperator LeaderIdempotent
